@@ -399,6 +399,55 @@ def oq(v):
     return "(@None Q)" if v is None else coq_opt(v, coq_Q)
 
 
+def impl_cols(spec, rec):
+    """engine columns of one output record -> (cols, score, prob, itf, bad_num)"""
+    cols, bad_num = [], False
+    for comp in spec["comparisons"]:
+        nm = comp["name"]
+        g = rec.get(f"gamma_{nm}")
+        b, t = fnum(rec.get(f"bf_{nm}")), fnum(rec.get(f"bf_tf_adj_{nm}"))
+        bad_num |= any(x in ("nan", "-inf") for x in (b, t)) or t == "inf"
+        cols.append((g, b if b not in ("nan", "-inf") else None, t if t not in ("nan", "-inf", "inf") else None))
+    mw, mp = rec.get("match_weight"), rec.get("match_probability")
+    if mw is None:
+        sc = None
+    elif isinstance(mw, float) and math.isnan(mw):
+        sc, bad_num = None, True
+    elif math.isinf(mw):
+        sc = "inf" if mw > 0 else Fr(0)
+    else:
+        sc = Fr(2.0 ** mw)
+    mpq = fnum(mp)
+    if mpq in ("nan", "inf", "-inf"):
+        bad_num, mpq = True, None
+    itf = [(fnum(rec.get(f"tf_{c}_l")), fnum(rec.get(f"tf_{c}_r"))) for c in spec["tf_cols"]]
+    return cols, sc, mpq, itf, bad_num
+
+
+def pair_term(spec, oc, tfv, rec, kw=None, kp=None, wf=None):
+    cols, sc, mpq, itf, bad_num = impl_cols(spec, rec)
+    t = ("(mkp " + coq_list([coq_list([f"{v}%nat" for v in lv], "nat") for lv in oc], "(list nat)") + " "
+         + coq_list([f"({oq(tfv[c][0])}, {oq(tfv[c][1])})" for c in spec["tf_cols"]], "(option Q * option Q)") + " "
+         + coq_list([f"({oq(a)}, {oq(b)})" for a, b in itf], "(option Q * option Q)") + " "
+         + coq_list([f"({coq_opt(g, coq_Z)}, {coq_opt(b, cx)}, {coq_opt(t_, cx)})" for g, b, t_ in cols],
+                    "(option Z * option xq * option xq)") + " "
+         + coq_opt(sc, cx) + " " + oq(mpq) + " " + coq_opt(kw, coq_bool) + " " + coq_opt(kp, coq_bool) + " "
+         + (("(Some (" + coq_list([cx(v) for v in wf[0]], "xq") + ", " + cx(wf[1]) + "))") if wf else "None") + ")")
+    return t, bad_num
+
+
+def pow_rows(py, powtbl):
+    if py is not None:
+        for col in py["cols"]:
+            t = col["tf_expr"]
+            if t is not None and t[0] == "pow" and t[2] not in (0, 1):
+                powtbl[(t[1], t[2])] = tf_value(t)
+
+
+def powtbl_term(powtbl):
+    return coq_list([f"({coq_Q(b)}, {coq_Q(w)}, {coq_Q(v)})" for (b, w), v in powtbl.items()], "(Q * Q * Q)")
+
+
 def case_term(case, impl):
     spec = case["spec"]
     tfexp = expected_tf(spec, case["rows"], case["lookups"])
@@ -408,41 +457,18 @@ def case_term(case, impl):
     for k, ((i, j), rec, oc) in enumerate(zip(impl["pairs"], impl["recs"], impl["outcomes"])):
         tfv = {c: (tfexp[c][i], tfexp[c][j]) for c in spec["tf_cols"]}
         py = py_score(spec, oc, tfv)
-        if py is not None:
-            for col in py["cols"]:
-                t = col["tf_expr"]
-                if t is not None and t[0] == "pow" and t[2] not in (0, 1):
-                    powtbl[(t[1], t[2])] = tf_value(t)
-        cols = []
-        bad_num = False
-        for comp in spec["comparisons"]:
-            nm = comp["name"]
-            g = rec.get(f"gamma_{nm}")
-            b, t = fnum(rec.get(f"bf_{nm}")), fnum(rec.get(f"bf_tf_adj_{nm}"))
-            bad_num |= any(x in ("nan", "-inf") for x in (b, t)) or t == "inf"
-            cols.append((g, b, t))
-        mw, mp = rec.get("match_weight"), rec.get("match_probability")
-        if mw is None:
-            sc = None
-        elif isinstance(mw, float) and math.isnan(mw):
-            sc, bad_num = None, True
-        elif math.isinf(mw):
-            sc = "inf" if mw > 0 else Fr(0)
-        else:
-            sc = Fr(2.0 ** mw)
-        mpq = fnum(mp)
-        if mpq in ("nan", "inf", "-inf"):
-            bad_num, mpq = True, None
-        itf = [(fnum(rec.get(f"tf_{c}_l")), fnum(rec.get(f"tf_{c}_r"))) for c in spec["tf_cols"]]
+        pow_rows(py, powtbl)
+        mw = rec.get("match_weight")
         kw = None if impl["kept_w"] is None else ((i, j) in impl["kept_w"])
         kp = None if impl["kept_p"] is None else ((i, j) in impl["kept_p"])
         wf = None
+        bad_wf = False
         if impl["wf"] is not None:
             bars = impl["wf"][k]
             vals = [fnum(b["bayes_factor"]) for b in bars]
             logs = [b["log2_bayes_factor"] for b in bars]
             if any(v in (None, "nan", "-inf") for v in vals):
-                bad_num = True
+                bad_wf = True
             else:
                 wf = (vals[:-1], vals[-1])
                 # the records add up: sum of the log2 bars = final bar = match_weight
@@ -456,23 +482,16 @@ def case_term(case, impl):
                     bfv, lg = b["bayes_factor"], b["log2_bayes_factor"]
                     if bfv > 0 and not math.isinf(bfv):
                         waterfall_py_ok &= abs(math.log2(bfv) - lg) <= 1e-9 * max(1.0, abs(lg))
-        t = ("(mkp " + coq_list([coq_list([f"{v}%nat" for v in lv], "nat") for lv in oc], "(list nat)") + " "
-             + coq_list([f"({oq(tfv[c][0])}, {oq(tfv[c][1])})" for c in spec["tf_cols"]], "(option Q * option Q)") + " "
-             + coq_list([f"({oq(a)}, {oq(b)})" for a, b in itf], "(option Q * option Q)") + " "
-             + coq_list([f"({coq_opt(g, coq_Z)}, {coq_opt(b, cx)}, {coq_opt(t_, cx)})" for g, b, t_ in cols],
-                        "(option Z * option xq * option xq)") + " "
-             + coq_opt(sc, cx) + " " + oq(mpq) + " " + coq_opt(kw, coq_bool) + " " + coq_opt(kp, coq_bool) + " "
-             + (("(Some (" + coq_list([cx(v) for v in wf[0]], "xq") + ", " + cx(wf[1]) + "))") if wf else "None") + ")")
+        t, bad_num = pair_term(spec, oc, tfv, rec, kw, kp, wf)
         pterms.append(t)
-        infos.append({"pair": (i, j), "py": py, "bad_num": bad_num})
+        infos.append({"pair": (i, j), "py": py, "bad_num": bad_num or bad_wf})
     Tw = None if impl["kept_w"] is None else Fr(2.0 ** impl["thr_w_value"])
     Tp = None
     if impl["kept_p"] is not None:
         p = Fr(impl["thr_p_value"])
         Tp = p / (1 - p)
-    tbl = coq_list([f"({coq_Q(b)}, {coq_Q(w)}, {coq_Q(v)})" for (b, w), v in powtbl.items()], "(Q * Q * Q)")
-    term = (f"({coq_Q(Fr(spec['prior']))}, {G.cmps_term(spec)}, {tbl}, {oq(Tw)}, {oq(Tp)}, {coq_bool(bool(case.get('exact_thr')))}, "
-            + coq_list(pterms, "ipair") + ")")
+    term = (f"({coq_Q(Fr(spec['prior']))}, {G.cmps_term(spec)}, {powtbl_term(powtbl)}, {oq(Tw)}, {oq(Tp)}, "
+            f"{coq_bool(bool(case.get('exact_thr')))}, " + coq_list(pterms, "ipair") + ")")
     return term, infos, waterfall_py_ok
 
 
